@@ -387,8 +387,10 @@ def required_families(doc, rng):
             walk(st[1])
     for nm in sorted(spl):
         nk = rng.choice([3, 3, 4, 6])
+        # the number of bins and the number of knot parameters written need not agree (a file whose N was lowered keeps its
+        # old knots): every knot parameter written is listed, in both languages
         out += [["constant", f"{nm}::Spline::Min", rng.choice(["0.6", "0.25", "0.18412"])], ["constant", f"{nm}::Spline::Max", rng.choice(["3", "2.5", "1.9"])],
-                ["constant", f"{nm}::Spline::N", str(nk + 1)]]
+                ["constant", f"{nm}::Spline::N", str(nk + rng.choice([1, 1, 0, -1, -2]))]]
         out += [["variable", f"{nm}::Spline::Gamma::{k}", rng.choice(["2", "0"]), rng.choice(["1.0", "0.5", "0.00331"]), rng.choice(["0", "0.1"])] for k in range(nk)]
     if any(t.startswith("kMatrix") for t in tags):
         for n in ("sA0", "sA", "s0_prod", "s0_scatt"):      # programmatic_name("sA0") is the symbol sA_0 the lineshape uses
